@@ -137,9 +137,11 @@ CLAIMED["C16"] = dict(
     "semantic clean-up rebuilds the first text from equal+delete and the second from equal+insert (C16_main_reconstructs, "
     "C16_main_reconstructs_nolines, C16_merge_reconstructs, C16_semantic_reconstructs, C16_diff_and_clean); with line mode on the "
     "theorem needs the two texts to have at most 55 293 characters together (line indices are encoded as characters). "
-    "_join_delete_insert keeps both texts (C16_join_keeps_both_texts). PARTIAL: 'no empty segment' is not proved - it is false of the "
-    "engine in line mode (known finding E1) - and the re-alignment's reconstruction up to open/close placeholders is not proved; "
-    "both are decided per run by oracles on the real engine and formatter. Model tied to the code by unit U8: every string pair over "
+    "_join_delete_insert keeps both texts (C16_join_keeps_both_texts). The formatter's re-balancing step keeps both reconstructions "
+    "apart from opening / closing placeholders, for every table a history of do_tree calls on one maker builds, every segment "
+    "list and stack, whenever its assert does not fire (C16_realign_keeps_texts, C16_realign_after_do_tree). PARTIAL: 'no empty "
+    "segment' is not proved - it is false of the engine in line mode (known finding E1); it is decided per run by the oracle on "
+    "the real engine. Model tied to the code by unit U8: every string pair over "
     "{a, b, space} up to length 4 (quick) / 5 (thorough) plus random sentences, multi-line texts (line mode) and placeholder strings.",
     note="Trusted: Lean kernel and standard axioms; the recorded bisect split points (engine subclassed in the harness, clock frozen); "
     "ASCII character classes in the boundary score.",
